@@ -1,6 +1,12 @@
 """C08 — coroutines advance one step per frame and wake exactly on time."""
 from harness import gen_coro, spec_coro
 
+
+def kind_of(o):
+    """first token of an observation line, past the instance mark `@k`"""
+    t = o.split()
+    return t[1] if t[0].startswith('@') and len(t) > 1 else t[0]
+
 MODEL = 'coro'
 RULE = ('seeded random schedules: 1-6 generator scripts of 2-14 yields (waits from {None, 0, -1/8, -1, '
         '1/8 .. 4 s}, in units of 1/8 s), started before or between frames, 20-60 process calls with dt '
@@ -8,9 +14,14 @@ RULE = ('seeded random schedules: 1-6 generator scripts of 2-14 yields (waits fr
         'step log: 2-4 coroutines sleeping to the SAME deadline with kill+start of waiting ones, bodies '
         'that kill themselves with others queued behind them, bodies that leave with an exception '
         '(Quit / SwitchWorld / errors) after which the caller keeps calling process(), random start/kill '
-        'histories; plus the hand-written corpus.  Non-trivial: at least one coroutine '
+        'histories; the same schedules with waits and dt written as fractions.Fraction / int / bool instead of '
+        'float (exact values, same numbers); two or three CoroutineProcessor instances living side by side, '
+        'driven interleaved with different dt, each judged on its own (non-interference); plus the '
+        'hand-written corpus.  Non-trivial: at least one coroutine '
         'woke from a positive wait; distinct by hash of the scenario text.')
-ASSUMPTIONS = ['waits and dt are multiples of 1/8 s (exactly representable, as the property stipulates)',
+ASSUMPTIONS = ['waits and dt are multiples of 1/8 s (exactly representable, as the property stipulates), given as '
+               'float, fractions.Fraction, int or bool; decimal.Decimal is NOT generated: the unchanged code adds '
+               'it to its float clock and raises TypeError out of process() (reported, see report of round 3)',
                'generator bodies terminate, do not call process() themselves and yield None or numbers; '
                'a body may leave with an exception: that call is excused for the coroutines still owed a '
                'step; from the next call on everybody runnable is owed exactly one step again, in the order '
@@ -34,10 +45,19 @@ def generate(rng, tier):
         yield gen_coro.gen_self_kill(rng, tier)
     for _ in range(n // 4):
         yield gen_coro.gen_lifecycle(rng, tier)
+    # the same values in other numeric types (Fraction, int, bool): a number is a number
+    for _ in range(n // 3):
+        yield gen_coro.retype(rng, gen_coro.gen_timing(rng, tier))
+    # several processors in one program, each with its own clock
+    for _ in range(n // 4):
+        yield gen_coro.gen_two_clocks(rng, tier)
+    for _ in range(n // 8):
+        yield gen_coro.retype(rng, gen_coro.with_decoy(rng, gen_coro.gen_same_wait(rng, tier),
+                                                        gen_coro.gen_raise(rng, tier)), 0.3)
 
 
 def project(obs):
-    return [o for o in obs if o.split()[0] in ('step', 'res', 'hang')]
+    return [o for o in obs if kind_of(o) in ('step', 'res', 'hang')]
 
 
 def oracle(lines, obs):
@@ -45,6 +65,8 @@ def oracle(lines, obs):
 
 
 def nontrivial(lines, obs):
+    lines = [ln for ln in lines if not ln.startswith('@')]      # judged on instance 0
+    obs = [o for o in obs if not o.startswith('@')]
     # a positive wait was yielded and the coroutine ran again later
     seen = set()
     for o in obs:
@@ -55,7 +77,7 @@ def nontrivial(lines, obs):
             g, i = int(t[1]), int(t[2])
             sc = [ln for ln in lines if ln.startswith(f'gen {g} :')][0].split(':', 1)[1].split('|')
             last = sc[i].split(';')[-1].split()
-            if last[0] == 'yield' and last[1] != 'N' and int(last[1]) > 0:
+            if last[0] == 'yield' and last[1] != 'N' and int(last[1].lstrip('FIB')) > 0:
                 seen.add((t[1], 'w'))
     return False
 
